@@ -286,6 +286,9 @@ class KernelPCovR(_BasePCA, LinearModel):
         if self.center:
             self.centerer_ = KernelNormalizer()
             K = self.centerer_.fit_transform(K)
+        elif hasattr(self, "centerer_"):
+            # left over from an earlier fit with center=True
+            del self.centerer_
 
         self.n_samples_in_, self.n_features_in_ = X.shape
 
@@ -377,6 +380,9 @@ class KernelPCovR(_BasePCA, LinearModel):
 
         if self.fit_inverse_transform:
             self.ptx_ = self.pt__ @ X
+        elif hasattr(self, "ptx_"):
+            # left over from an earlier fit with fit_inverse_transform=True
+            del self.ptx_
 
         self.pky_ = self.pkt_ @ self.pty_
 
